@@ -266,7 +266,7 @@ def _coq_cfg(cfg):
 
 def correspond(ctx, corr, model_ok):
     from harness import battery
-    battery.run(corr, ['slow-connect-keepalive'])
+    battery.run(corr, ['slow-connect-keepalive', 'stream0-order'])
     rng = ctx.rng
     items = []
     corr.oracle_failures.extend(reconnect_setup_oracle())
